@@ -24,6 +24,7 @@ struct Stats {
   long long virtualNs = 0;
   long opsOnDestroyed = 0;
   long interleavedShared = 0;   // operations on an atomic / volatile location directly after another thread's operation on it
+  long plainOnShared = 0;       // plain (non-atomic) accesses to a location that is also accessed atomically: decision points as well
 };
 
 // Runs fn(arg) as logical thread 0 under the scheduler and returns when every logical thread has finished,
